@@ -22,9 +22,10 @@
    through ReadSolidBlock(sizeof T), ReadExtSize CONSUMING the length field (the string reader only
    looks at it), SkipValueImpl seeking with SetPosition(GetPosition() + size) unless size == 0,
    ReadExtFamilyType remembering GetPosition(), consuming the header up to and including the ext
-   type byte and seeking back with an unchecked SetPosition(prevPos), ReadValue(CBinTimestamp)
-   seeking over the header with an unchecked SetPosition, ReadValue(string_view) copying through
-   mBuffer with the ReadByChunks loop.
+   type byte and seeking back with SeekOrThrow(prevPos), ReadValue(CBinTimestamp) seeking over the
+   header with SeekOrThrow, the reader's own SetPosition (since fix 24799d8 a refused seek at these
+   three places is SerializationException(InputOutputError): outcome QIO), ReadValue(string_view)
+   copying through mBuffer with the ReadByChunks loop.
 
    Not modelled: the text and the Offset field of the exceptions (the GetPosition() calls made only
    to fill that field are left out; the position at which a call throws is the reader's position
@@ -115,8 +116,9 @@ Definition is_end {A} (k : bool -> prog A) : prog A :=
 (* what a call of the stream reader comes back with: a value (returned true / returned normally),
    "returned false" (value skipped, target untouched), an exception, or the model's loop fuel ran out.
    The position is not part of it: it is the reader's. *)
-Inductive sr (A : Type) := QOk (v : A) | QNot | QErr (e : err) | QFuel.
-Arguments QOk {A} v. Arguments QNot {A}. Arguments QErr {A} e. Arguments QFuel {A}.
+Inductive sr (A : Type) := QOk (v : A) | QNot | QErr (e : err) | QFuel
+                        | QIO.     (* SerializationException(InputOutputError): a seek the stream refused (SeekOrThrow) *)
+Arguments QOk {A} v. Arguments QNot {A}. Arguments QErr {A} e. Arguments QFuel {A}. Arguments QIO {A}.
 
 (* sequencing with exception propagation *)
 Definition qbind {A B} (p : prog (sr A)) (f : A -> prog (sr B)) : prog (sr B) :=
@@ -125,6 +127,7 @@ Definition qbind {A B} (p : prog (sr A)) (f : A -> prog (sr B)) : prog (sr B) :=
                     | QNot => Ret QNot
                     | QErr e => Ret (QErr e)
                     | QFuel => Ret QFuel
+                    | QIO => Ret QIO
                     end).
 
 (* ================================================================== the anonymous-namespace helpers *)
@@ -192,6 +195,7 @@ Definition mps_handle_mismatch {A} (fuel : nat) (o : opts) (actual : vtype) : pr
                        | QNot => QNot
                        | QErr e => QErr e
                        | QFuel => QFuel
+                       | QIO => QIO
                        end).
 
 (* ConvertByPolicy on an integer source (MpModel.convert_int without the position) *)
@@ -237,8 +241,9 @@ Definition mps_read_ext_family : prog (sr (option extinfo)) :=
             read_byte (fun oc =>
               match oc with
               | Some c =>
-                set_position prev (fun _ =>                       (* result not looked at *)
-                  Ret (QOk (Some (mkExt (if c =? 0xFF then TTimestamp else TExt) off size c))))
+                set_position prev (fun ok =>                      (* SeekOrThrow(binaryStreamReader, prevPos) *)
+                  if ok then Ret (QOk (Some (mkExt (if c =? 0xFF then TTimestamp else TExt) off size c)))
+                  else Ret QIO)
               | None => Ret (QErr EParse)
               end) in
           if negb (m_fixed m =? 0) then finish (1 + m_data m) (m_fixed m)
@@ -270,6 +275,7 @@ Definition mps_mismatch_via_type {A} (fuel : nat) (o : opts) : prog (sr A) :=
               | QNot => Ret QNot
               | QErr e => Ret (QErr e)
               | QFuel => Ret QFuel
+              | QIO => Ret QIO
               end).
 
 (* ReadValue(std::nullptr_t&) *)
@@ -380,12 +386,14 @@ Definition mps_read_ts (fuel : nat) (o : opts) : prog (sr (Z * Z)) :=
        match r with
        | QErr e => Ret (QErr e)
        | QFuel => Ret QFuel
+       | QIO => Ret QIO
        | QNot => Ret QNot
        | QOk None => mps_mismatch_via_type fuel o
        | QOk (Some x) =>
          if x_code x =? 0xFF then
            get_position (fun p =>
-           set_position (p + x_off x) (fun _ =>                    (* result not looked at *)
+           set_position (p + x_off x) (fun ok =>                   (* SeekOrThrow(reader, GetPosition() + DataOffset) *)
+             if negb ok then Ret QIO else
              if x_size x =? 4 then
                qbind (mps_get_value 4) (fun v => Ret (QOk (Z.of_N v, 0%Z)))
              else if x_size x =? 8 then
@@ -414,12 +422,13 @@ Inductive rval :=
 | VInt (z : Z) | VUnit | VNum (n : N) | VBytes (l : list N) | VTs (secs nanos : Z) | VType (t : vtype) | VBool (b : bool).
 
 Definition sr_map {A B} (f : A -> B) (x : sr A) : sr B :=
-  match x with QOk a => QOk (f a) | QNot => QNot | QErr e => QErr e | QFuel => QFuel end.
+  match x with QOk a => QOk (f a) | QNot => QNot | QErr e => QErr e | QFuel => QFuel | QIO => QIO end.
 Definition pmap {A B} (f : A -> B) (p : prog (sr A)) : prog (sr B) :=
   pbind p (fun x => Ret (sr_map f x)).
 
 (* one answer of a sequence: what the call delivered and GetPosition() after it *)
-Inductive ans := AOkAt (v : rval) (pos : N) | ANotAt (pos : N) | AErrOf (e : err) | AFuelOut.
+Inductive ans := AOkAt (v : rval) (pos : N) | ANotAt (pos : N) | AErrOf (e : err) | AFuelOut
+             | AIOErr.     (* InputOutputError: a refused seek *)
 
 Section Seq.
   Variable narrow : N -> option N.
@@ -439,7 +448,7 @@ Section Seq.
     | RdTs => pmap (fun x => VTs (fst x) (snd x)) (mps_read_ts fuel o)
     | RdType => pmap VType mps_read_value_type
     | RdSkip => pmap (fun _ => VUnit) (mps_skip_value fuel)
-    | RdSetPos p => set_position p (fun _ => Ret (QOk VUnit))    (* void SetPosition: result dropped *)
+    | RdSetPos p => set_position p (fun ok => Ret (if ok then QOk VUnit else QIO))   (* SetPosition: throws InputOutputError on refusal *)
     | RdIsEnd => is_end (fun b => Ret (QOk (VBool b)))
     end.
 
@@ -454,6 +463,7 @@ Section Seq.
         | QNot => get_position (fun p => pbind (mps_seq fuel o tl) (fun rest => Ret (ANotAt p :: rest)))
         | QErr e => Ret [AErrOf e]
         | QFuel => Ret [AFuelOut]
+        | QIO => Ret [AIOErr]
         end)
     end.
 
@@ -563,6 +573,7 @@ Section Client.
         | QNot => get_position (fun p => mps_client fuel o (k (ANotAt p)) (t ++ [(op, ANotAt p)]))
         | QErr e => Ret (t ++ [(op, AErrOf e)], None)
         | QFuel => Ret (t ++ [(op, AFuelOut)], None)
+        | QIO => Ret (t ++ [(op, AIOErr)], None)
         end)
     end.
 
